@@ -1,5 +1,6 @@
 """C19 - the Markdown matcher recognises Gherkin lines as MARKDOWN_WITH_GHERKIN.md specifies."""
 from . import markdown_rules as md, matcher_rules as mr, totality_rules as tr, dialect_rules as dr, misc_rules as ms
+from . import line_rules as lr
 
 META = {
     "level": "other",
@@ -29,5 +30,8 @@ def run(rep):
     dr.rule_dialect(rep, "C19.dialect")
     ms.rule_shared(rep, "C19.shared")
     ms.rule_det(rep, "C19.det")
+    # the matcher sees the line as scanned: exactly the text read, left-trimmed (no normalisation of any kind)
+    lr.rule_scanner(rep, "C19.line", "C19.scan")
+    lr.rule_line_basics(rep, "C19.trimmed")
     # no hidden state: what the property promises for one use must hold for every later use as well
     ms.rule_stateless(rep, "C19")
